@@ -825,6 +825,18 @@ func (e *Engine) exec(st *State, fr *frame, b, pred *ssa.BasicBlock, idx, depth 
 						}
 						return e.stuck(st, "counting loop cannot be summarised by one generic iteration: "+e.loopWhy, e.condPos(in))
 					}
+					if e.MaxIter > 0 && isLoopHeader(b) && fr.stopAt != b && !dependsOnPhiOf(b, in.Cond, 0) {
+						// a parse loop whose header test has the same answer in every
+						// iteration (a guard on something outside the loop): bounded
+						// like `for { }`
+						if fr.visits == nil {
+							fr.visits = map[*ssa.BasicBlock]int{}
+						}
+						fr.visits[b]++
+						if fr.visits[b] > e.MaxIter {
+							return []Outcome{{Kind: "cutoff", St: st, Why: "iteration bound reached", Pos: e.condPos(in)}}
+						}
+					}
 					if *c.Const {
 						next = b.Succs[0]
 					} else {
@@ -1067,6 +1079,30 @@ func (e *Engine) exec(st *State, fr *frame, b, pred *ssa.BasicBlock, idx, depth 
 		}
 		pred, b, idx = b, next, 0
 	}
+}
+
+// dependsOnPhiOf: v is computed (within a few steps) from a phi of block b — a
+// quantity the loop headed by b carries from one iteration to the next.
+func dependsOnPhiOf(b *ssa.BasicBlock, v ssa.Value, depth int) bool {
+	if depth > 8 {
+		return true
+	}
+	if ph, ok := v.(*ssa.Phi); ok {
+		return ph.Block() == b
+	}
+	in, ok := v.(ssa.Instruction)
+	if !ok {
+		return false
+	}
+	if _, isLoad := v.(*ssa.UnOp); isLoad && v.(*ssa.UnOp).Op == token.MUL {
+		return true // a load: memory the loop may have written
+	}
+	for _, op := range in.Operands(nil) {
+		if op != nil && *op != nil && dependsOnPhiOf(b, *op, depth+1) {
+			return true
+		}
+	}
+	return false
 }
 
 // isLoopHeader reports whether b has a back edge (a predecessor it dominates).
@@ -1862,7 +1898,11 @@ func (e *Engine) compare(op token.Token, x, y Val, xt types.Type) (Val, string) 
 			return boolConst(op == token.NEQ), ""
 		}
 	case *Ptr:
-		if _, ok := y.(*Opaque); ok && a.Cell != nil { // p == nil
+		if yo, ok := y.(*Opaque); ok && a.Cell != nil { // p == nil
+			if yo.Key == "nil" && !a.Cell.Alloc && strings.HasPrefix(a.Cell.Name, "*") && strings.Contains(a.Cell.Name, ".") && len(a.Path) == 0 && a.SymIdx == nil && (op == token.EQL || op == token.NEQ) {
+				// a pointer held in a field of storage the caller supplied: either way
+				return &BoolVal{Op: ops, A: x, B: y}, ""
+			}
 			return boolConst(op == token.NEQ), ""
 		}
 		if b, ok := y.(*Ptr); ok {
